@@ -22,11 +22,41 @@ Definition stmt_eqb (a b : stmt) : bool :=
   end.
 
 (** ** T2 up to meaning: two statements that parse, bind to the same table and agree once qualifiers are
-       erased behave alike on EVERY table content (so an implementation that, say, qualifies more references
-       than the model still agrees with it). *)
+       erased and negated integer literals folded ([- 3] is written Neg(Literal 3) by sqlglot's parser and by
+       exp.convert alike, so the exporter cannot tell [QNeg (QLit 3)] from [QLit (-3)]) behave alike on EVERY
+       table content -- an implementation that, say, qualifies more references than the model still agrees. *)
+Fixpoint fold_neg (e : expr) : expr :=
+  match e with
+  | ECol _ | ELit _ => e
+  | EBin o a b => EBin o (fold_neg a) (fold_neg b)
+  | ENot a => ENot (fold_neg a)
+  | ENeg a => match fold_neg a with ELit (VInt z) => ELit (VInt (- z)) | a' => ENeg a' end
+  | EIsNull a => EIsNull (fold_neg a)
+  | EIf c t e' => EIf (fold_neg c) (fold_neg t) (fold_neg e')
+  | ECoalesce a b => ECoalesce (fold_neg a) (fold_neg b)
+  end.
+
+Lemma fold_neg_sound cs r e : eval cs r (fold_neg e) = eval cs r e.
+Proof.
+  induction e; cbn [fold_neg]; try reflexivity.
+  - simpl. rewrite IHe1, IHe2. reflexivity.
+  - simpl. rewrite IHe. reflexivity.
+  - cbn [eval]. rewrite <- IHe. destruct (fold_neg e) as [|[| z | | |]| | | | | |]; reflexivity.
+  - simpl. rewrite IHe. reflexivity.
+  - simpl. rewrite IHe1, IHe2, IHe3. reflexivity.
+  - simpl. rewrite IHe1, IHe2. reflexivity.
+Qed.
+
+Definition expr_equiv (a b : expr) : bool := expr_eqb (fold_neg a) (fold_neg b).
+Lemma expr_equiv_eval a b : expr_equiv a b = true -> forall cs r, eval cs r a = eval cs r b.
+Proof.
+  unfold expr_equiv. intros H cs r. apply expr_eqb_eq in H.
+  rewrite <- (fold_neg_sound cs r a), <- (fold_neg_sound cs r b), H. reflexivity.
+Qed.
+
 Definition entry_equiv (a b : string * qexpr) : bool :=
-  String.eqb (fst a) (fst b) && expr_eqb (erase (snd a)) (erase (snd b)).
-Definition where_equiv (a b : qexpr) : bool := expr_eqb (erase a) (erase b).
+  String.eqb (fst a) (fst b) && expr_equiv (erase (snd a)) (erase (snd b)).
+Definition where_equiv (a b : qexpr) : bool := expr_equiv (erase a) (erase b).
 Definition stmt_equiv (name : string) (cs : list string) (a b : stmt) : bool :=
   stmt_syntax_ok a && stmt_syntax_ok b
   && String.eqb (stmt_target a) name && String.eqb (stmt_target b) name
@@ -37,22 +67,34 @@ Definition stmt_equiv (name : string) (cs : list string) (a b : stmt) : bool :=
      | _, _ => false
      end.
 
-Lemma entries_equiv_eq s1 : forall s2, list_eqb entry_equiv s1 s2 = true -> erase_set s1 = erase_set s2.
+Lemma entries_equiv_look cs r s1 : forall s2, list_eqb entry_equiv s1 s2 = true -> forall n,
+  option_map (eval cs r) (assoc n (erase_set s1)) = option_map (eval cs r) (assoc n (erase_set s2)).
 Proof.
-  induction s1 as [|[k1 v1] s1 IH]; intros [|[k2 v2] s2] H; simpl in H; try discriminate; [reflexivity|].
+  induction s1 as [|[k1 v1] s1 IH]; intros [|[k2 v2] s2] H n; simpl in H; try discriminate; [reflexivity|].
   apply andb_true_iff in H. destruct H as [H1 H2]. unfold entry_equiv in H1. simpl in H1.
-  apply andb_true_iff in H1. destruct H1 as [Hk Hv]. apply String.eqb_eq in Hk. apply expr_eqb_eq in Hv.
-  simpl. rewrite Hk, Hv, (IH _ H2). reflexivity.
+  apply andb_true_iff in H1. destruct H1 as [Hk Hv]. apply String.eqb_eq in Hk. subst k2.
+  simpl. destruct (String.eqb k1 n); simpl.
+  - rewrite (expr_equiv_eval _ _ Hv cs r). reflexivity.
+  - apply IH. exact H2.
 Qed.
 
 Lemma where_equiv_sel cs w1 w2 : opt_eqb where_equiv w1 w2 = true -> forall r, sel cs w1 r = sel cs w2 r.
 Proof.
   destruct w1 as [p1|], w2 as [p2|]; simpl; intros H r; try discriminate; [|reflexivity].
-  unfold where_equiv in H. apply expr_eqb_eq in H. rewrite H. reflexivity.
+  unfold where_equiv in H. unfold holds. rewrite (expr_equiv_eval _ _ H cs r). reflexivity.
 Qed.
 
 Lemma filter_ext'' {A} (P Q : A -> bool) l : (forall x, P x = Q x) -> filter P l = filter Q l.
 Proof. intro H. induction l as [|x l IH]; simpl; [reflexivity|]. rewrite H, IH. reflexivity. Qed.
+
+Lemma assign_row_equiv cs s1 s2 r : list_eqb entry_equiv s1 s2 = true ->
+  assign_row cs (fun n => assoc n (erase_set s1)) r = assign_row cs (fun n => assoc n (erase_set s2)) r.
+Proof.
+  intro H. unfold assign_row. apply map_ext. intros [cn v]. cbn [fst snd].
+  pose proof (entries_equiv_look cs r s1 s2 H cn) as E.
+  destruct (assoc cn (erase_set s1)), (assoc cn (erase_set s2)); simpl in E; try discriminate; try reflexivity.
+  inversion E. reflexivity.
+Qed.
 
 Theorem stmt_equiv_sound name cs a b :
   stmt_equiv name cs a b = true -> forall rows, exec name cs rows a = exec name cs rows b.
@@ -66,9 +108,9 @@ Proof.
   apply andb_true_iff in H. destruct H as [Hsa Hsb].
   unfold exec. rewrite Hsa, Hsb, Hta, Htb, Hba, Hbb. simpl.
   destruct a as [t1 s1 w1|t1 w1], b as [t2 s2 w2|t2 w2]; try discriminate; simpl in *.
-  - apply andb_true_iff in Hm. destruct Hm as [Hs Hw].
-    rewrite (entries_equiv_eq _ _ Hs). f_equal. f_equal.
-    + apply map_ext. intro r. rewrite (where_equiv_sel cs _ _ Hw r). reflexivity.
+  - apply andb_true_iff in Hm. destruct Hm as [Hs Hw]. f_equal. f_equal.
+    + apply map_ext. intro r. rewrite (where_equiv_sel cs _ _ Hw r).
+      destruct (sel cs w2 r); [|reflexivity]. apply assign_row_equiv. exact Hs.
     + f_equal. apply filter_ext''. apply (where_equiv_sel cs _ _ Hw).
   - f_equal. f_equal.
     + apply filter_ext''. intro r. rewrite (where_equiv_sel cs _ _ Hm r). reflexivity.
